@@ -131,7 +131,10 @@ func loadHarness(moduleDir string, pkgs []string) (*loaded, error) {
 
 // buildReplayBinary compiles the native replay runner of a harness module
 // against /repo's current working tree.
+var currentModuleDir string
+
 func buildReplayBinary(moduleDir string) (string, error) {
+	currentModuleDir = moduleDir
 	out := filepath.Join(verifDir(), "bin", fmt.Sprintf("replay.%d", os.Getpid()))
 	cmd := exec.Command("go", "build", "-o", out, "./cmd/replay")
 	cmd.Dir = moduleDir
@@ -231,7 +234,51 @@ func writeReplay(prop string, h *harnessSpec, params map[string]int, f vm.Failur
 
 // confirmNatively replays a counterexample against the natively compiled
 // code. Map-order dependent failures are retried.
+// raceBinaries: native runners built with -race, per harness module directory.
+var raceBinaries = map[string]string{}
+
+func buildRaceBinary(moduleDir string) (string, error) {
+	if b, ok := raceBinaries[moduleDir]; ok {
+		return b, nil
+	}
+	out := filepath.Join(verifDir(), "bin", fmt.Sprintf("replay-race.%d", os.Getpid()))
+	cmd := exec.Command("go", "build", "-race", "-o", out, "./cmd/replay")
+	cmd.Dir = moduleDir
+	cmd.Env = goEnv()
+	b, err := cmd.CombinedOutput()
+	if err != nil {
+		return "", fmt.Errorf("building -race replay runner: %v\n%s", err, b)
+	}
+	raceBinaries[moduleDir] = out
+	return out, nil
+}
+
+// confirmRace: a data race found by the VM's happens-before detector is
+// confirmed by Go's race detector on free-running native goroutines.
+func confirmRace(moduleDir, harness, replayPath string, tries int) (bool, string) {
+	bin, err := buildRaceBinary(moduleDir)
+	if err != nil {
+		return false, err.Error()
+	}
+	for t := 0; t < tries; t++ {
+		r := runNative(bin, harness, []string{"VRT_REPLAY=" + replayPath, "VRT_NOBATON=1", "GORACE=halt_on_error=1"}, 30*time.Second)
+		if strings.Contains(r.out, "WARNING: DATA RACE") {
+			where := ""
+			for _, l := range strings.Split(r.out, "\n") {
+				if strings.Contains(l, "godi/v4.") && where == "" {
+					where = strings.TrimSpace(l)
+				}
+			}
+			return true, fmt.Sprintf("go -race: DATA RACE after %d run(s): %s", t+1, where)
+		}
+	}
+	return false, fmt.Sprintf("go -race reported nothing in %d free-running runs", tries)
+}
+
 func confirmNatively(bin, harness, replayPath, assertID string, tries int) (bool, string) {
+	if strings.HasSuffix(assertID, ".data_race") {
+		return confirmRace(currentModuleDir, harness, replayPath, 300)
+	}
 	crashOK := strings.HasPrefix(assertID, "ENGINE.uncaught_panic") || strings.HasSuffix(assertID, ".nontermination") || strings.HasPrefix(assertID, "ENGINE.goroutine_panic") || strings.HasSuffix(assertID, ".no_panic")
 	hangOK := strings.HasPrefix(assertID, "ENGINE.deadlock") || strings.HasSuffix(assertID, ".nontermination")
 	last := ""
